@@ -168,6 +168,7 @@ class StructTranslator:
     def __init__(self, records, funcs=None):
         self.rec = records
         self.funcs = funcs if funcs is not None else {}   # C name -> dict(lean, params=[(kind, ...)], ambient, ret, written)
+        self.resolver = None  # callback(name): translate a callee on demand
         self.assumed = []   # dropped pointer-validity asserts etc. (reported in the evidence)
 
     # ---- type helpers --------------------------------------------------
@@ -446,6 +447,9 @@ class StructTranslator:
             amb.add(name)
             return "(%s %s)" % (name, " ".join(self.expr(a, env, pre, amb, pure) for a in args))
         f = self.funcs.get(name)
+        if f is None and self.resolver is not None:
+            self.resolver(name)          # translate the callee first (raises Untranslatable if it has no body here)
+            f = self.funcs.get(name)
         if f is None:
             raise Untranslatable("call to untranslated function %s" % name)
         amb.update(f["ambient"])
